@@ -2,7 +2,7 @@
    Final statements only; for EVERY callee record and both state machines; stated on the reference machine
    (Model/Parser.v [reference]); C01 relates the implementation's machine to it on quiet runs. *)
 From Coq Require Import ZArith.
-From Httoop Require Import Model.Parser Model.Composer Proofs.ParserFrag Proofs.ParserFraming Proofs.ParserWf Proofs.Http1ReaderP Proofs.ParserChunked Corr.Parser.
+From Httoop Require Import Model.Parser Model.Composer Proofs.ParserFrag Proofs.ParserFraming Proofs.ParserWf Proofs.Http1ReaderP Proofs.ParserQuiet Proofs.ParserChunked Corr.Parser.
 
 (* Isolation / pipelining: if [a] is parsed into complete messages leaving the machine idle, then for ANY
    following octets [b] the deliveries are those of [a] followed by exactly the deliveries of [b] parsed
@@ -132,6 +132,16 @@ Theorem C02_client_pipeline_fragmented_real : forall (C : callees) (ms : list wm
   run_keep real C Client init frags = (init, map w_delivered ms, None).
 Proof. exact client_pipeline_fragmented_real. Qed.
 Print Assumptions C02_client_pipeline_fragmented_real.
+
+(* ... and for the SERVER machine as implemented when the header hook of the run accepts framed header sections only
+   (C01_server_quiet): every fragmentation of any pipeline of valid requests with LF-free request lines is delivered exactly. *)
+Theorem C02_server_pipeline_fragmented_real : forall (C : callees) (ms : list wmsg) (frags : list bytes),
+  (forall p h, c_hdrs C p h = HOk -> framed_h p h = true) ->
+  Forall (w_ok C Server) ms -> Forall (fun m => no_lf (w_line m) = true) ms ->
+  concat_bytes frags = concat_bytes (map w_wire ms) ->
+  run_keep real C Server init frags = (init, map w_delivered ms, None).
+Proof. exact server_pipeline_fragmented_real. Qed.
+Print Assumptions C02_server_pipeline_fragmented_real.
 
 (* The one configuration in which the client machine must NOT read a body: the message whose framing fields it strips
    ([c_connect]: a successful response to its CONNECT request, RFC 7231 4.3.6) ends with its header section whatever
